@@ -13,10 +13,18 @@
    C11_concatenate_axis — any number of inputs are laid one after the other (`locate` walks the inputs subtracting
    their axis lengths); C11_split_concatenate — array_split into at most (axis length) parts followed by concatenate
    along the same axis returns the original array.
-   NOT YET PROVED (checked by the correspondence run): stack / vstack / hstack / dstack / column_stack as coordinate
-   statements (they are expand_dims / atleast promotions followed by concatenate), rank-1 joins along axis 0, and
-   splits producing empty blocks (parts > axis length). *)
-From ArrRs Require Import Index Axis Split Join Join_proofs Broadcast_proofs Axis_proofs Split_proofs Append_proofs.
+   STACKING: C11_stack — n inputs of one shape s become the entries of a new axis inserted at any position ax <= rank:
+   the result has shape s with n inserted at ax and holds at c the element of input c[ax] at c without that entry
+   (expand_dims of every input and the concatenation are inside the theorem); C11_dstack_matrices — dstack of
+   equally shaped matrices is that stack along a new last axis; C11_vstack_axis / C11_hstack_axis / C11_dstack_axis —
+   on inputs that already have the required rank the three conveniences ARE the concatenation along axis 0 / 1 / 2;
+   RANK-1 JOINS: C11_append_rank1 / C11_concatenate_rank1 / C11_hstack_rank1 chain the element lists;
+   C11_vstack_rank1 — n vectors of one length l give the n x l matrix whose row k is input k.
+   C11_column_stack — vectors of r elements and r-row matrices are laid side by side: the result is r x (sum of the
+   column counts) and entry (i, j) is found by walking the inputs subtracting their column counts (col_locate).
+   NOT YET PROVED (checked by the correspondence run): the promotion of rank-0 / mixed-rank inputs by hstack / dstack,
+   and splits producing empty blocks (parts > axis length). *)
+From ArrRs Require Import Index Axis Split Join Join_proofs Broadcast_proofs Axis_proofs Split_proofs Append_proofs Stack_proofs.
 
 Theorem C11_split_sizes : forall n parts, 0 < parts ->
   length (section_sizes n parts) = parts /\
@@ -101,6 +109,81 @@ Theorem C11_split_concatenate : forall (T : Type) (d : T) (a : arr T) parts ax,
   0 < parts <= nth ax (shape a) 0 ->
   exists ps, array_split d a parts (Some ax) = Ok ps /\ length ps = parts /\ concatenate d ps (Some ax) = Ok a.
 Proof. exact @array_split_concatenate. Qed.
+
+Theorem C11_stack : forall (T : Type) (d : T) s ax (first : arr T) rest,
+  1 <= length s -> pos_shape s -> ax <= length s -> (Z.of_nat (S (length s)) < two64)%Z ->
+  Forall (fun a => wf a /\ shape a = s) (first :: rest) ->
+  exists R, stack d (first :: rest) (Some ax) = Ok R /\ wf R /\
+    shape R = insert_nth s ax (length (first :: rest)) /\
+    forall c, in_range (shape R) c ->
+      get d R c = get d (nth (nth ax c 0) (first :: rest) first) (remove_nth c ax).
+Proof. exact @stack_spec. Qed.
+
+Theorem C11_dstack_matrices : forall (T : Type) (d : T) r c (first : arr T) rest,
+  0 < r -> 0 < c -> Forall (fun a => wf a /\ shape a = [r; c]) (first :: rest) ->
+  exists R, dstack d (first :: rest) = Ok R /\ wf R /\ shape R = [r; c; length (first :: rest)] /\
+    forall i j k, i < r -> j < c -> k < length (first :: rest) ->
+      get d R [i; j; k] = get d (nth k (first :: rest) first) [i; j].
+Proof. exact @dstack_matrices. Qed.
+
+Theorem C11_vstack_axis : forall (T : Type) (d : T) rs n (first : arr T) rest,
+  2 <= n -> (Z.of_nat n < two64)%Z -> Forall (joinable 0 rs n) (first :: rest) ->
+  exists R, concatenate d (first :: rest) (Some 0) = Ok R /\ vstack d (first :: rest) = Ok R.
+Proof. exact @vstack_axis. Qed.
+
+Theorem C11_hstack_axis : forall (T : Type) (d : T) rs n (first : arr T) rest,
+  2 <= n -> (Z.of_nat n < two64)%Z -> Forall (joinable 1 rs n) (first :: rest) ->
+  exists R, concatenate d (first :: rest) (Some 1) = Ok R /\ hstack_spec d (first :: rest) = Ok R.
+Proof. exact @hstack_axis. Qed.
+
+Theorem C11_dstack_axis : forall (T : Type) (d : T) rs n (first : arr T) rest,
+  3 <= n -> (Z.of_nat n < two64)%Z -> Forall (joinable 2 rs n) (first :: rest) ->
+  exists R, concatenate d (first :: rest) (Some 2) = Ok R /\ dstack d (first :: rest) = Ok R.
+Proof. exact @dstack_axis. Qed.
+
+Theorem C11_append_rank1 : forall (T : Type) (d : T) (a v : arr T) na nv,
+  wf a -> wf v -> shape a = [na] -> shape v = [nv] ->
+  append d a v (Some 0) = Ok (mk (elems a ++ elems v) [na + nv]).
+Proof. exact @append_rank1. Qed.
+
+Theorem C11_concatenate_rank1 : forall (T : Type) (d : T) (first : arr T) rest,
+  Forall (fun a => wf a /\ ndim a = 1) (first :: rest) ->
+  concatenate d (first :: rest) (Some 0) =
+    Ok (mk (flat_map (@elems T) (first :: rest)) [length (flat_map (@elems T) (first :: rest))]).
+Proof. exact @concatenate_rank1. Qed.
+
+Theorem C11_hstack_rank1 : forall (T : Type) (d : T) (first : arr T) rest,
+  Forall (fun a => wf a /\ ndim a = 1) (first :: rest) ->
+  hstack_spec d (first :: rest) =
+    Ok (mk (flat_map (@elems T) (first :: rest)) [length (flat_map (@elems T) (first :: rest))]) /\
+  hstack_pinned d (first :: rest) = hstack_spec d (first :: rest).
+Proof. exact @hstack_rank1. Qed.
+
+Theorem C11_vstack_rank1 : forall (T : Type) (d : T) l (first : arr T) rest,
+  Forall (fun a => wf a /\ shape a = [l]) (first :: rest) ->
+  exists R, vstack d (first :: rest) = Ok R /\ wf R /\ shape R = [length (first :: rest); l] /\
+    forall k j, k < length (first :: rest) -> j < l -> get d R [k; j] = nth j (elems (nth k (first :: rest) first)) d.
+Proof. exact @vstack_rank1. Qed.
+
+Theorem C11_col_locate_def : forall (T : Type) (d : T) (a : arr T) t i j,
+  col_locate d (a :: t) i j = if j <? ncols a then nth (i * ncols a + j) (elems a) d else col_locate d t i (j - ncols a).
+Proof. reflexivity. Qed.
+
+Theorem C11_column_stack : forall (T : Type) (d : T) r (first : arr T) rest,
+  Forall (fun a => wf a /\ (shape a = [r] \/ exists c, shape a = [r; c])) (first :: rest) ->
+  exists R, column_stack (first :: rest) = Ok R /\ wf R /\
+    shape R = [r; fold_left (fun s a => s + ncols a) (first :: rest) 0] /\
+    forall i j, i < r -> j < fold_left (fun s a => s + ncols a) (first :: rest) 0 ->
+      get d R [i; j] = col_locate d (first :: rest) i j.
+Proof. exact @column_stack_spec. Qed.
+
+Example C11_stack_nonvacuous :
+  stack 0%Z [mk [1;2;3;4;5;6]%Z [2;3]; mk [7;8;9;10;11;12]%Z [2;3]] (Some 1) =
+    Ok (mk [1;2;3;7;8;9;4;5;6;10;11;12]%Z [2;2;3]) /\
+  vstack 0%Z [mk [1;2]%Z [2]; mk [3;4]%Z [2]; mk [5;6]%Z [2]] = Ok (mk [1;2;3;4;5;6]%Z [3;2]) /\
+  dstack 0%Z [mk [1;2;3;4]%Z [2;2]; mk [5;6;7;8]%Z [2;2]] = Ok (mk [1;5;2;6;3;7;4;8]%Z [2;2;2]) /\
+  column_stack [mk [1;2]%Z [2]; mk [3;4;5;6]%Z [2;2]] = Ok (mk [1;3;4;2;5;6]%Z [2;3]).
+Proof. repeat split; vm_compute; reflexivity. Qed.
 
 Example C11_split_nonvacuous :
   array_split 0%Z (mk (map Z.of_nat (seq 0 12)) [2;3;2]) 2 (Some 1) =
